@@ -12,7 +12,7 @@ UNIT = dict(
         "InFlight::try_join": dict(rules=[
             LOCKMAP,
             ("sub", "R9-paths", r"broadcast::channel\(1\)", "channel(1)", 1),
-            ("inject", r"requests\.insert\(key, tx\);", "after", "proof { tr.unguarded = tr.unguarded + 1; }"),
+            ("inject", r"\b\w+\.insert\(key, tx\);", "after", "proof { tr.unguarded = tr.unguarded + 1; }"),
         ]),
         "InFlight::complete": dict(rules=[LOCKMAP, ("addarg", ["send"], TR, 1), ("inject", None, "end", "proof { tr.removed = tr.removed + 1; if tr.unguarded > 0 { tr.unguarded = (tr.unguarded - 1) as nat; } }")]),
         "InFlight::cancel": dict(rules=[LOCKMAP, ("inject", None, "end", "proof { tr.removed = tr.removed + 1; if tr.unguarded > 0 { tr.unguarded = (tr.unguarded - 1) as nat; } }")]),
